@@ -67,17 +67,37 @@ theorem edits_commute_when_sorted_desc (A B C D E r1 r2 : List Char) :
   obtain ⟨h1, h2⟩ := two_edits_commute A B C D E r1 r2
   rw [h1, h2]
 
-/-- `sorted(..., reverse=True)` as modelled keeps the work list a permutation (nothing dropped or duplicated) -/
-theorem sortDesc_length (ws : List Work) : (sortDesc ws).length = ws.length := by
-  induction ws with
-  | nil => rfl
-  | cons w t ih =>
-    have hins : ∀ (l : List Work), (insertDesc w l).length = l.length + 1 := by
-      intro l
-      induction l with
-      | nil => rfl
-      | cons x xs ihx => simp only [insertDesc]; split <;> simp [ihx]
-    simp [sortDesc, hins, ih]
+/-- `sorted(..., reverse=True)` as modelled drops or duplicates nothing -/
+theorem sortDesc_length (ws : List Work) : (sortDesc ws).length = ws.length := sortDescBy_length keyLt ws
+
+/-- the sort key the real `apply_changes` uses (probed per run, `Generated.PrecTable`) is (line, column) -/
+theorem sortKey_live : keyLt = keyLtWith true true := by
+  funext a b; simp [keyLt, PrecTable.sortKeyUsesLine, PrecTable.sortKeyUsesColumn]
+
+/-- with that key the work list is applied in position-descending order: no edit is followed by one that lies
+later in the file (on another line OR further right on the same line) — the order `splice_local` needs -/
+theorem sortDesc_is_descending (ws : List Work) :
+    (sortDesc ws).Pairwise (fun a b => ¬ posLt a b) := by
+  unfold sortDesc; rw [sortKey_live]; exact sortDescBy_sorted ws
+
+/-- … strictly descending when no two edits start at the same position -/
+theorem sortDesc_is_strictly_descending (ws : List Work)
+    (distinct : (sortDesc ws).Pairwise (fun a b => ¬ (a.span.line = b.span.line ∧ a.span.col = b.span.col))) :
+    (sortDesc ws).Pairwise (fun a b => posLt b a) := by
+  have h := sortDesc_is_descending ws
+  have hb := List.Pairwise.and h distinct
+  exact hb.imp (by
+    intro a b hab
+    obtain ⟨h1, h2⟩ := hab
+    unfold posLt at h1 ⊢; omega)
+
+def mkWork (line col : Nat) : Work := ⟨.modify, ⟨line, col, line, col + 3⟩, .arrOrFunc, .empty⟩
+
+/-- a LINE-ONLY key is not enough: two edits on one line stay in queue order (stable sort), the left one is applied
+first and the right one then uses an offset that is no longer valid -/
+theorem sortDesc_line_only_counterexample :
+    (sortDescBy (keyLtWith true false) [mkWork 2 26, mkWork 2 47]).map (·.span.col) = [26, 47] ∧
+    (sortDescBy (keyLtWith true true) [mkWork 2 26, mkWork 2 47]).map (·.span.col) = [47, 26] := by decide
 
 /-! ### line offsets -/
 
